@@ -539,6 +539,19 @@ def _tri_case(ctx, desc, z, flat):
         _row_sums(ctx, "lap_cotan", L, 1e-9)
         _close(ctx, "lap_cotan", "stiffness", "differs_from_cotan_stiffness",
                "laplacian(cotan=True) differs from the independently assembled cotangent stiffness matrix", L, K, rel, classify=vclass)
+    if L is not None and nF >= 3 and desc.get("seed", 0) % 3 == 0:
+        # the same triangles delivered with mixed winding (a triangle soup in which some faces are listed clockwise): the stiffness matrix does
+        # not depend on the winding of the faces, so neither does the cotangent Laplacian
+        import mouette as M_
+        Fm = [list(f) if k % 3 else [f[0], f[2], f[1]] for k, f in enumerate(F)]
+        ok_m, m_mixed = ctx.call("build", build.surface, V, Fm, monitor="lap_cotan", abort=False)
+        if ok_m:
+            ok_m, Lm_raw = ctx.call("laplacian", M_.operators.laplacian, m_mixed, True, monitor="lap_cotan", abort=False)
+            Lm = _dense(ctx, "lap_cotan", "laplacian", Lm_raw, (nV, nV)) if ok_m else None
+            if Lm is not None:
+                ctx.cls("winding:some_faces_listed_clockwise")
+                _close(ctx, "lap_cotan", "stiffness", "differs_from_cotan_stiffness_on_mixed_winding",
+                       "laplacian(cotan=True) of the same triangles listed with mixed winding differs from the cotangent stiffness matrix", Lm, K, rel, classify=vclass)
     Lu = _dense(ctx, "lap_uniform", "laplacian", res.get("laplacian_uniform"), (nV, nV))
     if Lu is not None:
         _symmetric(ctx, "lap_uniform", Lu, 1e-12, classify=vclass)
